@@ -276,15 +276,31 @@ func c08c(c *Ctx) {
 	}
 	// bounds: i := start; i < start + int64(dataTile.W); i++ with start = TileWidth * dataTile.N
 	boundOK := false
-	if be, ok := ast.Unparen(loop.Cond).(*ast.BinaryExpr); ok && be.Op == token.LSS {
-		if sum, ok := ast.Unparen(be.Y).(*ast.BinaryExpr); ok && sum.Op == token.ADD {
-			_, p, ok := fieldPath(info, stripConv(info, sum.Y))
-			if ok && len(p) == 1 && p[0] == "W" {
-				st := f.ResolveDeep(sum.X)
-				if mul, ok := ast.Unparen(st.E).(*ast.BinaryExpr); ok && mul.Op == token.MUL {
-					boundOK = true
-				}
+	var loopVar types.Object
+	if init, ok := loop.Init.(*ast.AssignStmt); ok && len(init.Lhs) == 1 {
+		loopVar = objOf(info, init.Lhs[0])
+	}
+	isI := func(e ast.Expr) bool { return loopVar != nil && objOf(info, e) == loopVar }
+	isBound := func(e ast.Expr) bool {
+		sum, ok := ast.Unparen(e).(*ast.BinaryExpr)
+		if !ok || sum.Op != token.ADD {
+			return false
+		}
+		for _, pair := range [][2]ast.Expr{{sum.X, sum.Y}, {sum.Y, sum.X}} {
+			_, p, okW := fieldPath(info, stripConv(info, pair[1]))
+			if !okW || len(p) != 1 || p[0] != "W" {
+				continue
 			}
+			st := f.ResolveDeep(pair[0])
+			if mul, ok := ast.Unparen(st.E).(*ast.BinaryExpr); ok && mul.Op == token.MUL {
+				return true
+			}
+		}
+		return false
+	}
+	if loop.Cond != nil {
+		if rel, ok := cmpRel(Atom{loop.Cond, true}, isI, isBound); ok && rel == relLT {
+			boundOK = true
 		}
 	}
 	if init, ok := loop.Init.(*ast.AssignStmt); !ok || len(init.Rhs) != 1 {
@@ -396,7 +412,7 @@ func c08d(c *Ctx) {
 				}
 			case top == "ctlog.LoadLog" && shape == "const:_roots.pem":
 				class = "accepted-roots list: influences acceptance of submissions, not the tree"
-			case top == "ctlog.LoadLog" && shape == "param:key":
+			case top == "ctlog.LoadLog" && shape == "param":
 				class = "tile reader callback: authenticated by tlog.TileHashReader against the lock checkpoint"
 			case top == "ctlog.LoadLog":
 				if c2, ok := f.IsCallResult(argByName(info, s.Call, "key"), -1, Callee{pkgCtlog, "", "legacyStagingPath"}); ok && c2 != nil {
